@@ -550,6 +550,25 @@ func checkC13(r *mon.Run) {
 			all = append(all, sess{"img.session", h, p})
 		}
 	}
+	// structurally edited signatures inside an image's certificate table, on the image they were
+	// made for and on one whose digest they do not match (error paths of the image verifier)
+	{
+		base := repoFile("tests/data/binary/test.pecoff")
+		if out, sig, err := libSignImage(base, cs.Key, cs.Cert); err == nil && out != nil {
+			tampered := append([]byte(nil), base...)
+			tampered[len(tampered)/2] ^= 0x5a
+			k5 := keys.Get(5)
+			atk5 := keys.Simple(k5, "c13img", 98)
+			p := map[string]string{"foreign": fmt.Sprintf("%x", foreign.Raw), "cert": fmt.Sprintf("%x", cs.Cert.Raw)}
+			for _, m := range structuralMutants(p7seed{Blob: sig}, k5, atk5.Raw, atk5.RawSubject, atk5.SerialNumber.Bytes(), keys.Get(6)) {
+				for vi, body := range [][]byte{base, tampered} {
+					if img := embedSigs(body, m.Blob); img != nil {
+						all = append(all, sess{"img.session", hostile{img, "embedded-structural", mutClass(m.Kind), []string{"matching-image", "other-image"}[vi], "signed:test.pecoff"}, p})
+					}
+				}
+			}
+		}
+	}
 	// signatures
 	seeds := librarySeeds(r, 3)
 	seeds = append(seeds, opensslSeeds(r, r.N(4, 14), true)...)
